@@ -17,6 +17,7 @@ import DarkluaModel.Rules.UnusedVariable
 import DarkluaModel.Rules.UnusedVariableHeap
 import DarkluaModel.Rules.UnusedVariableHeapV
 import DarkluaModel.Rules.UnusedVariableHeapV2
+import DarkluaModel.Rules.UnusedVariableHeapV3
 import DarkluaModel.Rules.NilDeclarationHeap
 import DarkluaModel.Rules.NilDeclarationHeap2
 import DarkluaModel.Rules.AllocCondU
@@ -114,6 +115,7 @@ def handle (op : String) (args : List String) : String :=
       if (Rules.UnusedVariable.Guarded.applyG driverApi b).toSexp.toString == out then "in (stage 3: cells)"
       else if (Rules.UnusedVariable.GuardedV.applyG driverApi b).toSexp.toString == out then "in (stage 4: cells, tables, closures)"
       else if (Rules.UnusedVariable.GuardedV2.applyG driverApi b).toSexp.toString == out then "in (stage 4 + unused call-valued declarations)"
+      else if (Rules.UnusedVariable.GuardedV3.applyG driverApi b).toSexp.toString == out then "in (stage 4 + unused effectful single values)"
       else "out"
     | none => "bad-request"
   | "c08guard", some [name, block] =>
